@@ -137,7 +137,16 @@ def ramped_shifted_field(x, y, z, *, t, B=0.0, cx=0.0, cy=0.0, rate=4.0):
     return np.stack([-s * B * y / 2 + cx, s * B * x / 2 + cy, np.zeros_like(x)], axis=1)
 
 
+def closure_field(B, cx, cy):
+    """the shifted field as a closure: the gauge offset is a captured value, not a keyword argument of the Parameter"""
+    def field(x, y, z):
+        return np.stack([-B * y / 2 + cx, B * x / 2 + cy, np.zeros_like(x)], axis=1)
+    return field
+
+
 def run_level(ctx, stop_first=False):
+    from tdgl.solver.solver import TDGLSolver
+
     first = None
     cfgs = [
         dict(dev="ring", cur=None, B=0.6, opts=dict(dt_init=5e-3, adaptive=False)),
@@ -150,6 +159,9 @@ def run_level(ctx, stop_first=False):
     cfgs.append(dict(dev="bar", cur={"source": 4.0, "drain": -4.0}, B=0.0, lam=0.5, opts=dict(dt_init=5e-3, adaptive=False, include_screening=True, screening_tolerance=1e-3)))
     # link variables refreshed in place during the run (time-dependent field / screening), terminals not pinned
     cfgs.append(dict(dev="bar", cur={"source": 2.0, "drain": -2.0}, B=0.5, td=True, opts=dict(dt_init=5e-3, adaptive=False, terminal_psi=None)))
+    # runs CONTINUED from a seed solution (computed in the reference gauge) in each gauge, the potentials being closures
+    # made by one factory (same code, same keyword arguments, another captured offset)
+    cfgs.append(dict(dev="bar", cur={"source": 3.0, "drain": -3.0}, B=0.4, closure=True, seeded=True, opts=dict(dt_init=5e-3, adaptive=False)))
     if not ctx.quick:
         cfgs.append(dict(dev="bar3", cur={"source": 3.0, "drain": -1.0, "top": -2.0}, B=0.5, td=True, opts=dict(dt_init=5e-3, adaptive=False)))
         cfgs.append(dict(dev="bar", cur={"source": 2.0, "drain": -2.0}, B=0.4, lam=0.5, opts=dict(dt_init=5e-3, adaptive=False, terminal_psi=None, include_screening=True, screening_tolerance=1e-3)))
@@ -166,14 +178,30 @@ def run_level(ctx, stop_first=False):
             opts = runs.options(solve_time=0.12 if not cfg["opts"].get("adaptive") else 0.2, save_every=4, output_file=out, progress_interval=10**9, **cfg["opts"])
             if cfg.get("td"):
                 A = tdgl.Parameter(ramped_shifted_field, B=cfg["B"], cx=cx, cy=cy, time_dependent=True)
+            elif cfg.get("closure"):
+                A = tdgl.Parameter(closure_field(cfg["B"], cx, cy))
             else:
                 A = tdgl.Parameter(shifted_field, B=cfg["B"], cx=cx, cy=cy)
+            seed_ = None
+            if cfg.get("seeded"):
+                if (cx, cy) == (0.0, 0.0):
+                    cfg["_seed"] = tdgl.solve(dev, runs.options(solve_time=0.1, save_every=100, progress_interval=10**9, **cfg["opts"]),
+                                              applied_vector_potential=A, terminal_currents=cfg["cur"])
+                    ctx.count("gauge_runs_continued_from_a_seed")
+                # the seed in this gauge: the same state, psi carrying the gauge phase exp(i chi), chi = A_scale c . r / xi
+                import copy
+                import dataclasses
+
+                sv0 = TDGLSolver(device=dev, options=runs.options(solve_time=0.01), applied_vector_potential=A, terminal_currents=cfg["cur"])
+                chi0 = sv0.A_scale * (dev.mesh.sites @ np.array([cx, cy]))
+                seed_ = copy.copy(cfg["_seed"])
+                seed_.tdgl_data = dataclasses.replace(cfg["_seed"].tdgl_data, psi=np.asarray(cfg["_seed"].tdgl_data.psi) * np.exp(1j * chi0))
             # gauge-related initial data: A -> A + c is the gauge function chi(r) = c.r, so the run in the
             # shifted gauge starts from psi_0 e^{i chi} (the property compares psi "up to the gauge phase" at every
             # recorded step, step 0 included); chi in dimensionless units = A_scale * c . (r / xi)
             from tdgl.solver.solver import TDGLSolver
 
-            solver = TDGLSolver(device=dev, options=opts, applied_vector_potential=A, terminal_currents=cfg["cur"])
+            solver = TDGLSolver(device=dev, options=opts, applied_vector_potential=A, terminal_currents=cfg["cur"], seed_solution=seed_)
             chi = solver.A_scale * (dev.mesh.sites @ np.array([cx, cy]))
             solver.psi_init = solver.psi_init * np.exp(1j * chi)
             try:
